@@ -1,7 +1,8 @@
 #!/usr/bin/env python3
 """Regression run of the final checks against every seeded change: for each /verif/seeded/<id>/ applies patch.diff to a scratch
 worktree of /repo HEAD (3-way fallback for patches written against an earlier base), runs the owning property's quick check
-through tools/trymut.sh and records CAUGHT / MISSED in /verif/seeded/recheck_results.json. usage: recheck.py [id-prefix ...]"""
+through tools/trymut.sh and records CAUGHT / MISSED in /verif/seeded/recheck_results.json (RECHECK_OUT overrides; VERIF_SEED
+selects the seed of the quick tier). usage: recheck.py [id-prefix ...]"""
 import json, os, subprocess, sys, time, glob
 WT = "/tmp/wt_recheck"
 def sh(cmd, cwd=None, timeout=3600):
@@ -11,7 +12,7 @@ def main():
     want = sys.argv[1:]
     if not os.path.isdir(WT):
         sh(f"git -C /repo worktree add -q --detach {WT} HEAD")
-    path = "/verif/seeded/recheck_results.json"
+    path = os.environ.get("RECHECK_OUT", "/verif/seeded/recheck_results.json")
     res = json.load(open(path)) if os.path.exists(path) else {}
     head = sh("git -C /repo rev-parse --short HEAD")[1].strip()
     for d in sorted(glob.glob("/verif/seeded/C*/")):
